@@ -262,6 +262,10 @@ func layersOf(s *Spec) []Layer {
 		// refuses %#v for an error argument: "%!v(<type>)".
 		dump := "%!v(" + Chain(s.X[0])[0].Typ + ")"
 		return []Layer{stackL(s), sec, mk(s, "*errutil.withPrefix", Prefix, "lit "+S(0)+" e="+dump)}
+	case "wrapferrprec":
+		sec := mk(s, "*secondary.withSecondaryError", Transparent, "")
+		sec.Hidden = s.X
+		return []Layer{stackL(s), sec, mk(s, "*errutil.withPrefix", Prefix, "lit "+S(0)+" e="+Text(s.X[0]))} // (the library ignores the precision: known finding F23)
 	case "wrapferr":
 		sec := mk(s, "*secondary.withSecondaryError", Transparent, "")
 		sec.Hidden = s.X
